@@ -1591,6 +1591,117 @@ func vC18CaseHistory(t *testing.T, r *rand.Rand, out *vC18Out, special bool) {
 	}
 }
 
+type vC18Asked struct {
+	q    string
+	qt   uint16
+	wire bool
+}
+
+// "blocked exactly when listed", end to end and without looking into the list: a history of
+// real API calls (return values recorded), then queries through ServeDNS in a real Chain. The
+// case carries the list as it was BEFORE the calls, the calls, and the replies — no memory
+// dump afterwards: what is listed is what the calls acknowledged (Proofs_listed.listed_is_served;
+// spec_case judges the replies by that list, check_case by the model's own run of the calls).
+func vC18CaseListed(t *testing.T, r *rand.Rand, out *vC18Out) {
+	dir := vC18Dir(t)
+	cfg := vC18Cfg(r, dir)
+	pool := vC18KeyPool(r, "", false)
+	cfg.Whitelist = vC18Whitelist(r, pool)
+	if r.Intn(4) == 0 {
+		cfg.Blocklist = []string{vC18Spell(r, pool[r.Intn(len(pool))])}
+	}
+	b := vC18NewQuiet(cfg)
+	m0, wild0, w := vC18Dump(b)
+	nops := 2 + r.Intn(6)
+	var parts []string
+	var descOps []any
+	var planned []vC18Op
+	var around, acked []string
+	anyOK := false
+	for i := 0; i < nops || len(planned) > 0; i++ {
+		var op vC18Op
+		switch {
+		case len(planned) > 0:
+			op, planned = planned[0], planned[1:]
+		case i < nops-1 && r.Intn(3) == 0:
+			var a []string
+			planned, a = vC18CoverPattern(r, pool)
+			around = append(around, a...)
+			op, planned = planned[0], planned[1:]
+		default:
+			op = vC18RandOp(r, pool)
+		}
+		ret := op.apply(b)
+		if ret > 0 {
+			anyOK = true
+			acked = append(acked, op.Keys...)
+		}
+		parts = append(parts, fmt.Sprintf("(%s, %d%%N)", op.coq(), ret))
+		descOps = append(descOps, []any{op.Kind, op.Keys, ret})
+	}
+	// probes: mostly around the keys some call acknowledged (set or removed), then the pool
+	names := append(append(append([]string{}, acked...), acked...), around...)
+	names = append(append(names, pool...), cfg.Whitelist...)
+	names = append(names, m0...)
+	nr := vC18IPNum(net.ParseIP(cfg.Nullroute), true)
+	nr6 := vC18IPNum(net.ParseIP(cfg.Nullroutev6), false)
+	var probes []string
+	var descProbes []any
+	var asked []vC18Asked
+	blocked, passed := 0, 0
+	for _, q := range vC18Probes(r, names, 4+r.Intn(4)) {
+		if _, ok := dns.IsDomainName(q); !ok || strings.Contains(q, "..") || !vC18ASCII(q) {
+			continue
+		}
+		qt := vC18Qtypes[r.Intn(len(vC18Qtypes))]
+		wireBorn := r.Intn(2) == 0
+		o, desc, seen := vC18Serve(b, dns.Fqdn(q), qt, wireBorn)
+		if o == "" {
+			continue
+		}
+		if strings.HasPrefix(o, "OReply") {
+			blocked++
+		} else {
+			passed++
+		}
+		probes = append(probes, fmt.Sprintf("(%s, %d%%N, %s)", vC18Str(seen), qt, o))
+		descProbes = append(descProbes, desc)
+		asked = append(asked, vC18Asked{dns.Fqdn(q), qt, wireBorn})
+	}
+	if len(probes) == 0 {
+		return
+	}
+	defer func() {
+		// ... and the same queries put to a NEW process started on the directory the calls left
+		// behind (Properties.listed_end_to_end): still judged by the acknowledged list alone
+		if present, _ := vC18ReadLocal(dir); !present || len(cfg.Blocklist) > 0 {
+			return
+		}
+		ncfg := *cfg
+		nb := New(&ncfg)
+		var rprobes []string
+		var rdesc []any
+		for _, a := range asked {
+			o, desc, seen := vC18Serve(nb, a.q, a.qt, a.wire)
+			if o == "" {
+				continue
+			}
+			rprobes = append(rprobes, fmt.Sprintf("(%s, %d%%N, %s)", vC18Str(seen), a.qt, o))
+			rdesc = append(rdesc, desc)
+		}
+		if len(rprobes) > 0 {
+			out.emit("listed-restart", fmt.Sprintf("CaseListed %s %s %s [%s] %s%%N %s%%N [%s]", vC18List(m0), vC18List(wild0), vC18List(w), strings.Join(parts, "; "),
+				nr, nr6, strings.Join(rprobes, "; ")),
+				map[string]any{"m0": m0, "wild0": wild0, "w": w, "whitelist": cfg.Whitelist, "ops": descOps, "probes_after_restart": rdesc},
+				anyOK && blocked > 0 && passed > 0, "", "")
+		}
+	}()
+	out.emit("listed", fmt.Sprintf("CaseListed %s %s %s [%s] %s%%N %s%%N [%s]", vC18List(m0), vC18List(wild0), vC18List(w), strings.Join(parts, "; "),
+		nr, nr6, strings.Join(probes, "; ")),
+		map[string]any{"m0": m0, "wild0": wild0, "w": w, "whitelist": cfg.Whitelist, "ops": descOps, "probes": descProbes},
+		anyOK && blocked > 0 && passed > 0, "", "")
+}
+
 // a sequential history around one batch that holds both forms of one domain
 func vC18CaseTwinBatch(t *testing.T, r *rand.Rand, out *vC18Out, nops int) {
 	dir := vC18Dir(t)
@@ -2591,6 +2702,12 @@ func vC18RunScript(sc *vC18Script, dir, refDir string, kprefix string) (recs []v
 				gf = fmt.Sprintf("query %q: reference matcher says blocked=%v, handler outcome %s", seen, want, o)
 			}
 			recs = append(recs, vC18Rec{kprefix + "serve", fmt.Sprintf("CaseServe %s %s %s %s%%N %s%%N %s %d%%N (%s)", vC18List(m), vC18List(wild), vC18List(w), nr, nr6, vC18Str(seen), st.Qtype, o), d, true, gf})
+			if !gated && !refreshed && len(hparts) > 0 && vC18ASCII(seen) {
+				// the same reply judged by the list the calls so far have acknowledged (no memory dump)
+				recs = append(recs, vC18Rec{kprefix + "listed", fmt.Sprintf("CaseListed %s %s %s [%s] %s%%N %s%%N [(%s, %d%%N, %s)]", vC18List(m0), vC18List(wild0), vC18List(w),
+					strings.Join(hparts, "; "), nr, nr6, vC18Str(seen), st.Qtype, o),
+					map[string]any{"script": sc.Name, "m0": m0, "wild0": wild0, "w": w, "steps": append([]any{}, desc...), "probe": d}, true, ""})
+			}
 		case "reload":
 			present, file := vC18ReadLocal(dir)
 			if !present || len(sc.Blocklist) > 0 || dirty {
@@ -3214,8 +3331,10 @@ func TestVerifC18(t *testing.T) {
 			vC18CaseServe(t, r, out)
 		case x < 57:
 			vC18CaseEscDot(t, r, out)
-		case x < 73:
+		case x < 67:
 			vC18CaseHistory(t, r, out, false)
+		case x < 73:
+			vC18CaseListed(t, r, out)
 		case x < 78:
 			vC18CaseHistory(t, r, out, true)
 		case x < 79:
